@@ -79,6 +79,28 @@ class Driver:
                 return ("item", next(it))
             except StopIteration:
                 return ("stop",)
+        if op.endswith("_mix"):
+            # other calls on the SAME session while the walk is under way: after `mix_after` items a get(), and a whole
+            # second walk (nested loop), then the first walk is resumed; self.mix_log keeps what the inner calls returned
+            it = getattr(s, op[:-4])(*args)
+            out = self.partial = []
+            self.mix_log = []
+            k = getattr(self, "mix_after", 1)
+            for x in it:
+                out.append(x)
+                if len(out) == k:
+                    for kind, a in getattr(self, "mix_ops", []):
+                        try:
+                            if kind == "get":
+                                self.mix_log.append(("ok", s.get(a)))
+                            else:
+                                self.mix_log.append(("ok", list(getattr(s, kind)(a))))
+                        except Exception as e:
+                            self.mix_log.append(("exc", type(e).__name__))
+                if len(out) >= limit:
+                    out.append("LIMIT")
+                    break
+            return out
         if op.endswith("_parts"):
             # a caller that consumes ONE walk object in several loops (peek with next(), a for loop left with
             # break, then another for loop over the same object): legitimate use of an iterator
@@ -151,6 +173,26 @@ class Driver:
                 return ("item", await it.__anext__())
             except StopAsyncIteration:
                 return ("stop",)
+        if op.endswith("_mix"):
+            it = getattr(s, op[:-4])(*args)
+            out = self.partial = []
+            self.mix_log = []
+            k = getattr(self, "mix_after", 1)
+            async for x in it:
+                out.append(x)
+                if len(out) == k:
+                    for kind, a in getattr(self, "mix_ops", []):
+                        try:
+                            if kind == "get":
+                                self.mix_log.append(("ok", await s.get(a)))
+                            else:
+                                self.mix_log.append(("ok", [y async for y in getattr(s, kind)(a)]))
+                        except Exception as e:
+                            self.mix_log.append(("exc", type(e).__name__))
+                if len(out) >= limit:
+                    out.append("LIMIT")
+                    break
+            return out
         if op.endswith("_parts"):
             it = getattr(s, op[:-6])(*args)
             out = self.partial = []
